@@ -222,6 +222,51 @@ def run(F, rep, tier):
         else:
             rep.viol('R4.6', ty + '|one-arg', '%s no longer builds a right section for one argument' % ty, None)
 
+    # ---------------- R4.7
+    rep.rule('R4.7', 'splat_section_eval decision table over (is a splat?, evaluated or placeholder, section already open?): an evaluated splat '
+             'is spread (mut_obj_into_iter) whether or not a placeholder came before it, an evaluated non-splat is pushed as one argument, a '
+             'placeholder records its splat flag; first-match evaluation over the arms, all 8 rows', exhaustive=True)
+    sse = 'eval::splat_section_eval'
+    if F.has_fn(sse):
+        sbody = F.body(sse)
+        tm = None
+        for m in F.matches.get(sse, []):
+            if m['kind'] == 'Normal' and m['scrut_ty'].startswith('((bool, std::option::Option<core::Obj>)'):
+                tm = m
+        if tm is None:
+            rep.error('R4.7', 'the (splat flag, value, accumulator) match of splat_section_eval was not found')
+        else:
+            def lit(b_):
+                return {'k': 'lit', 'v': 'bool:%s' % ('true' if b_ else 'false')}
+            def cons(path, sub):
+                return {'k': 'ts', 'p': path, 's': sub, 'dd': -1}
+            from .core import pat_subsumes, pat_disjoint
+            for is_splat in (False, True):
+                for has_val in (True, False):
+                    for open_ in (False, True):
+                        inp = {'k': 'tuple', 'dd': -1, 's': [
+                            {'k': 'tuple', 'dd': -1, 's': [lit(is_splat), cons('std::option::Option::Some', [{'k': 'wild'}]) if has_val else {'k': 'path', 'p': 'std::option::Option::None'}]},
+                            cons('std::result::Result::Err' if open_ else 'std::result::Result::Ok', [{'k': 'wild'}])]}
+                        arm = None
+                        for i, a in enumerate(tm['arms']):
+                            if _matches(a['pat'], inp):
+                                arm = i
+                                break
+                        row = '(splat=%s, %s, section %s)' % (is_splat, 'value' if has_val else 'placeholder', 'open' if open_ else 'closed')
+                        if arm is None:
+                            rep.viol('R4.7', sse + '|row|' + row, 'no arm handles ' + row, sbody.loc(0))
+                            continue
+                        regn = arm_region(F, sbody, tm, arm)
+                        names = [c.target.rsplit('::', 1)[-1] for c in sbody.calls_in(regn)]
+                        spread = 'mut_obj_into_iter' in names
+                        want_spread = is_splat and has_val
+                        if spread == want_spread and 'push' in names or (want_spread and spread):
+                            rep.ok('R4.7', row, 'arm %s %s' % (pat_str(tm['arms'][arm]['pat']), 'spreads the value' if spread else 'pushes one item'))
+                        else:
+                            rep.viol('R4.7', sse + '|row|' + row, '%s is handled by arm %s which %s: f(_, ...xs) no longer agrees with the plain splat / apply forms' % (row, pat_str(tm['arms'][arm]['pat']), 'spreads' if spread else 'pushes the value as a single argument'), sbody.loc(min(regn)) if regn else None)
+    else:
+        rep.error('R4.7', 'missing ' + sse)
+
     # ---------------- R4.4
     rep.rule('R4.4', 'then, ., .> are call1(env, b, a); <. is call1(env, a, b); apply is call(env, b, items of a); of is call(env, a, items of b)',
              exhaustive=True)
@@ -350,3 +395,33 @@ def run(F, rep, tier):
         rep.error('R4.5', str(e))
     rep.undecided += ['extensional equality of each builtin across forms when its body is wrong', 'user-defined closures (one path: Closure::run)']
     return META
+
+
+def _matches(pat, inp):
+    """first-match semantics on an abstract input built from literals / constructors / wildcards: does `pat` match every
+    value described by `inp`? (inp contains no or-patterns; wildcards in inp stand for an arbitrary value)"""
+    pat = strip_ref(pat)
+    k = pat.get('k')
+    if k in ('wild', 'bind') and 's' not in pat:
+        return True
+    if k == 'bind':
+        return _matches(pat['s'], inp)
+    if k == 'or':
+        return any(_matches(x, inp) for x in pat['s'])
+    ik = inp.get('k')
+    if ik == 'wild':
+        return False
+    if k == 'lit':
+        return ik == 'lit' and inp['v'] == pat['v']
+    if k == 'path':
+        return ik == 'path' and inp['p'].rsplit('::', 1)[-1] == pat['p'].rsplit('::', 1)[-1]
+    if k == 'tuple':
+        return ik == 'tuple' and len(pat['s']) == len(inp['s']) and all(_matches(a, b) for a, b in zip(pat['s'], inp['s']))
+    if k == 'ts':
+        if ik != 'ts' or inp['p'].rsplit('::', 1)[-1] != pat['p'].rsplit('::', 1)[-1]:
+            return False
+        subs = pat['s']
+        if pat.get('dd', -1) >= 0:
+            return True
+        return len(subs) == len(inp['s']) and all(_matches(a, b) for a, b in zip(subs, inp['s']))
+    return False
